@@ -268,6 +268,9 @@ void SQuIDS::Set_xrange(double xi, double xf, std::string type){
   if(nx>1){
     x[0]=xi;
     x[nx-1]=xf;
+    //nor may rounding push an interior node of a very narrow range past an end
+    for(unsigned int e1 = 1; e1 < nx-1; e1++)
+      x[e1]=std::min(std::max(x[e1],xi),xf);
   }
 }
 
